@@ -44,14 +44,16 @@ PROPS = {
                         "IntersectsCellID/Intersects/Intersection/Difference/IntersectionWithCellID/LeafCellsCovered only a valid "
                         "(sorted, disjoint) one; Denormalize: minLevel <= 30, 1 <= levelMod <= 3; CellUnionFromRange: odd leaf positions "
                         "begin <= end <= End(MaxLevel); CellIndex labels >= 0"],
-        "partial": ["(e) only: CellIndex_contents_correct and Find_correct are stated as `def ... : Prop` and NOT proved "
-                    "(cellIndex_*_partial: ranges sorted, tree = added pairs, well-formed parents, chain fuel); they are judged on every "
-                    "run by Oracle.C11b (judgeRanges / judgeSweep / judgeFind) on the implementation's output. (a)-(d) are full."],
+        "partial": [],
+        "level_note": "(e) CellIndex / s2intersect.Find: CellIndex_contents_correct and Find_correct are PROVED "
+                      "(Properties/C11_Index.lean: cellIndex_contents_correct, find_correct) together with the range iterator, "
+                      "contents iterator (any StartUnion sequence; increasing order = exactly once) and Find shape / disjointness "
+                      "theorems; they are additionally judged on every run by Oracle.C11b on the implementation's output.",
     },
     "C06": {
-    "generators": [("c06a", 4000, 120000), ("c06idx", 6000, 60000)],
+    "generators": [("c06a", 4000, 120000), ("c06idx", 6000, 60000), ("c06pc", 3000, 60000)],
     "translators": ["translator_c06"],
-    "modules": ["S2.ShapesBase", "S2.Shapes", "S2.Generated.ShapeAccessors", "S2.Locate", "S2.CellID", "S2.Contain", "S2.Pred", "S2.Exact"],
+    "modules": ["S2.ShapesBase", "S2.ShapesLoops", "S2.Shapes", "S2.Generated.ShapeAccessors", "S2.Locate", "S2.PaddedCellM", "S2.Hilbert", "S2.STUV", "S2.CellM", "S2.CellID", "S2.Contain", "S2.Pred", "S2.Exact"],
     "rule": "shapes: every Shape type (Loop incl. empty/full/0/2-vertex, Polyline, LaxPolyline, PointVector, LaxLoop (both "
             "constructors), LaxPolygon with 0,1,2,few,many loops incl. 0/1/2-vertex loops, Polygon empty/full/no-loop, disjoint and "
             "nested loop sets of 1..7, 11,12,13,14,40 loops = both sides of maxLinearSearchLoops) with pairwise distinct vertices; "
@@ -59,16 +61,24 @@ PROPS = {
             "locate: sorted pairwise-disjoint cell lists (0,1,few,20-80 cells; siblings, curve neighbours, nested candidates pruned, "
             "whole faces) x targets = index cells, their range ends +-1, ancestors at several levels, children / deep descendants, "
             "curve neighbours, random cells, first/last leaf of the curve.  non-trivial = every c06shape line with >= 1 edge and every "
-            "c06loc/c06locp/c06seek line with a non-empty cell list; distinct = distinct (op, arguments)",
+            "c06loc/c06locp/c06seek line with a non-empty cell list; distinct = distinct (op, arguments).  "
+            "padded cells (c06pc): all cells of levels 0..2 (0..4 thorough) of every face + c01's boundary-structured random cells (levels 0..30, "
+            "face corners/edges, coarse grid lines); paddings 0, ShapeIndex cellPadding, eps, 2^-20..2^-60, up to 0.5; FromParentIJ chains of "
+            "length 1..30 (random / corner-hugging / grid-line-hugging, from faces down to leaves); Next() incl. last-child carry chains; "
+            "ShrinkToFit rects always containing a point of the real Bound() (ends, midpoint, one ulp inside, random) with extents 0 … 3",
     "nontrivial": lambda l: (l.startswith("c06shape") and " 0 0 - - - -" not in l and " 0 1 - " not in l)
                             or ((l.startswith("c06loc") or l.startswith("c06seek")) and not l.split(" ")[1] == "-")
+                            or l.startswith("c06pcpath") or l.startswith("c06pcnext")
+                            or (l.startswith("c06pcshrink") and l.split(" ")[1] != l.split(" ")[-1])
                             or l.startswith("c04cross") or l.startswith("c04cpq")
                             or (l.startswith("c04idx") and l.split(" C ", 1)[-1].count(" ") >= 1),
     "trusted_base": [
         "translator_c06 (go/ast -> Lean) for the accessor arithmetic; every translated accessor is ALSO compared behaviourally (c06shape)",
-        "Polygon.Edge/Chain/ChainPosition, the constructors' bookkeeping (LaxPolygonFromPoints cumulativeVertices, "
-        "Polygon.initEdgesAndIndex) and sort.Search are hand-modelled: tied by the correspondence check only",
+        "Polygon.Edge/Chain/ChainPosition are regenerated too (two-variable loop primitives forInc2/rangeBreak2, S2/ShapesLoops.lean) and "
+        "PROVED equal to the hand model (Ties/C06_Polygon.lean, not rfl); the constructors' bookkeeping (LaxPolygonFromPoints "
+        "cumulativeVertices, Polygon.initEdgesAndIndex) and sort.Search are hand-modelled: tied by the correspondence check only",
         "hook s2/verif_export_c06a.go (VerifIteratorOverCells builds an iterator over a bare cell-id list)",
+        "hook s2/verif_export_c06pc.go (VerifC06pcFields: read-only accessor of the unexported PaddedCell fields)",
     ],
     "assumptions": [
         "Locate theorems assume CellsOK (rangeMin c <= c <= rangeMax c, rangeMax c_i < rangeMin c_j for i<j, no sentinel) and, for "
